@@ -205,6 +205,17 @@ def split_magic(ints):
     return out
 
 
+def _raise_stack():
+    """printing the result of a large Eval vm_compute overflows the default 8 MB stack of coqc: lift the soft limit to the hard one"""
+    try:
+        import resource
+        soft, hard = resource.getrlimit(resource.RLIMIT_STACK)
+        want = hard if hard != resource.RLIM_INFINITY else resource.RLIM_INFINITY
+        resource.setrlimit(resource.RLIMIT_STACK, (want, hard))
+    except Exception:  # noqa
+        pass
+
+
 def coq_eval_files(named_sources, timeout=600, jobs=16):
     """named_sources: list of (name, text).  Writes build/corr/<name>.v, runs coqc on each in
     parallel, returns {name: (rc, stdout)}."""
@@ -220,7 +231,7 @@ def coq_eval_files(named_sources, timeout=600, jobs=16):
             f.write(text)
         cmd = ['timeout', str(timeout), 'coqc', '-R', COQ, 'GS', '-w', '-all', p]
         of = open(os.path.join(d, name + '.out'), 'w')
-        return subprocess.Popen(cmd, cwd=d, stdout=of, stderr=subprocess.STDOUT, text=True)
+        return subprocess.Popen(cmd, cwd=d, stdout=of, stderr=subprocess.STDOUT, text=True, preexec_fn=_raise_stack)
 
     while pending or running:
         while pending and len(running) < jobs:
@@ -233,7 +244,7 @@ def coq_eval_files(named_sources, timeout=600, jobs=16):
             else:
                 out = open(os.path.join(d, name + '.out'), errors='replace').read()
                 res[name] = (pr.returncode, out)
-                for ext in ('.vo', '.vok', '.vos', '.glob'):
+                for ext in ('.vo', '.vok', '.vos', '.glob') + (('.v', '.out') if pr.returncode == 0 else ()):   # keep the sources of a failed evaluation
                     try:
                         os.remove(os.path.join(d, name + ext))
                     except OSError:
